@@ -3,14 +3,22 @@
 (* of ResolverGen and every order of visiting the function bodies that Go's *)
 (* map iteration and the depth-first topological walk can produce, the      *)
 (* multi-pass inference gives the declarative verdict and types.            *)
+(* Family "collect" (C19a) has no resolver run: its states are the sources  *)
+(* with several collected errors, and the invariant CollectDet says that    *)
+(* the error reported for each is the same for every walk over the table.   *)
 EXTENDS ResolverGen
 
-CONSTANTS Family,        \* "usage" or "multi"
-          MapOrder       \* "any" (as built) or "sorted" (iteration over sorted keys)
+CONSTANTS Family,        \* "usage", "multi", "frames" or "collect"
+          MapOrder,      \* "any" (as built) or "sorted" (iteration over sorted keys)
+          CollectRel     \* "lex" (a total order on positions) or "either" (the refuted slip)
 
-Slots == IF Family = "usage" THEN UsageSlots ELSE MultiSlots
-Opts(k, chosen) == IF Family = "usage" THEN SlotOpts(Slots[k], chosen) ELSE MultiOpts(Slots[k])
-Program(chosen) == IF Family = "usage" THEN UsageProgram(chosen) ELSE MultiProgram(chosen)
+Slots == CASE Family = "usage" -> UsageSlots [] Family = "multi" -> MultiSlots
+           [] Family = "frames" -> FramesSlots [] Family = "collect" -> CollectSlots
+Opts(k, chosen) == CASE Family = "usage" -> SlotOpts(Slots[k], chosen) [] Family = "multi" -> MultiOpts(Slots[k])
+                     [] Family = "frames" -> FramesOpts(Slots[k]) [] Family = "collect" -> CollectOpts(Slots[k], chosen)
+Program(chosen) == CASE Family = "usage" -> UsageProgram(chosen) [] Family = "multi" -> MultiProgram(chosen)
+                     [] Family = "frames" -> FramesProgram(chosen)
+                     [] Family = "collect" -> [funcs |-> <<>>, main |-> <<>>, sites |-> CollectSites(chosen)]
 
 VARIABLES ch, built, prog, rs
 vars == <<ch, built, prog, rs>>
@@ -76,6 +84,8 @@ RunAgrees == (built /\ rs.phase = "done") => rs = RunWithOrder(prog, rs.order, G
 DeterministicVerdict ==
   (built /\ rs.phase = "order") =>
      Cardinality({ObsVerdict(RunWithOrder(prog, o, GOrder)) : o \in PossibleOrders(prog, MapOrder)}) = 1
+\* C19a, collected errors: one report whatever the walk over the table (refuted for CollectRel = "either")
+CollectDet == (built /\ Family = "collect") => CollectDeterministic(CollectRel, prog.sites)
 \* C19a: neither do the message and the position of a rejection.  This holds for MapOrder = "sorted"
 \* and is VIOLATED for MapOrder = "any" (two paths with different first errors): the candidate that
 \* the replay then looks for in the real parser.
